@@ -76,13 +76,14 @@ BIND = {
     },
     (C, 'Configurator.__enter__'): dict(CFG_SCOPE),
     (C, 'Configurator.__exit__'): dict(CFG_SCOPE),
-    (C, 'Configurator.make_wsgi_app'): dict(CFG_SCOPE),
+    (C, 'Configurator.make_wsgi_app'): dict(CFG_SCOPE, **{'self.registry.notify': ('opaque', 'body', None)}),
     (C, 'Configurator.include'): dict(CFG_SCOPE, **{
         'self.route_prefix_context': ('gen-cm', (RO, 'RoutesConfiguratorMixin.route_prefix_context')),
         'c': ('opaque', 'body', None),
     }),
     (A, 'ActionConfiguratorMixin.action'): dict(CFG_SCOPE, **{'callable': ('opaque', 'body', None)}),
-    (A, 'ActionConfiguratorMixin.commit'): dict(CFG_SCOPE),
+    (A, 'ActionConfiguratorMixin.commit'): dict(
+        CFG_SCOPE, **{'self.action_state.execute_actions': ('opaque', 'body', None)}),
     (RO, 'RoutesConfiguratorMixin.route_prefix_context'): dict(CFG_SCOPE),
     (S, 'get_root'): {
         'RequestContext': ('ctor', RC),
